@@ -136,6 +136,34 @@ func buildShape(name string, n int, salt int) (enc []byte, decode func(src []byt
 	panic("shape " + name)
 }
 
+// a decoder that keeps using ONE receiver for every message it is given
+func reusingDecoder(name string) func(src []byte) ([]byte, wt.AppenderTo, error) {
+	switch name {
+	case "header":
+		o := &wt.Header{}
+		return func(src []byte) ([]byte, wt.AppenderTo, error) { r, err := o.TakeFrom(src); return r, o, err }
+	case "series":
+		o := &wt.TimeSeries{}
+		return func(src []byte) ([]byte, wt.AppenderTo, error) { r, err := o.TakeFrom(src); return r, o, err }
+	case "points":
+		o := &wt.Points{}
+		return func(src []byte) ([]byte, wt.AppenderTo, error) { r, err := o.TakeFrom(src); return r, o, err }
+	case "point":
+		o := &wt.Point{}
+		return func(src []byte) ([]byte, wt.AppenderTo, error) { r, err := o.TakeFrom(src); return r, o, err }
+	case "value":
+		var o wt.Value
+		return func(src []byte) ([]byte, wt.AppenderTo, error) { r, err := o.TakeFrom(src); return r, &o, err }
+	case "timestamp":
+		var o wt.Timestamp
+		return func(src []byte) ([]byte, wt.AppenderTo, error) { r, err := o.TakeFrom(src); return r, &o, err }
+	case "duration":
+		var o wt.Duration
+		return func(src []byte) ([]byte, wt.AppenderTo, error) { r, err := o.TakeFrom(src); return r, &o, err }
+	}
+	panic("shape " + name)
+}
+
 // codec <export-file> <result-json>
 func runCodec(args []string) int {
 	f, err := os.Open(args[0])
@@ -273,10 +301,52 @@ func runCodec(args []string) int {
 			}
 		}
 	}
+	// a receiver that already holds an object: what a decoder yields depends on the bytes only, so decoding a message
+	// into a receiver used before (longer, shorter, equal) must give the same object as decoding into a fresh one
+	reused := 0
+	for i := range shapes {
+		for j := range shapes {
+			n1, c1 := shapeOf(&shapes[i])
+			n2, c2 := shapeOf(&shapes[j])
+			if n1 != n2 {
+				continue
+			}
+			e1, _ := buildShape(n1, c1, i+j)
+			e2, _ := buildShape(n2, c2, i*3+j)
+			dec := reusingDecoder(n1)
+			reused++
+			for step, e := range [][]byte{e1, e2, e1} {
+				var rest []byte
+				var obj wt.AppenderTo
+				var err error
+				func() {
+					defer func() {
+						if rc := recover(); rc != nil {
+							err = fmt.Errorf("decoder panics: %v", rc)
+						}
+					}()
+					rest, obj, err = dec(append(append([]byte{}, e...), 0xde, 0xad))
+				}()
+				if err != nil || len(rest) != 2 || !bytes.Equal(obj.AppendTo(nil), e) {
+					got := []byte{}
+					if err == nil {
+						got = obj.AppendTo(nil)
+					}
+					if len(viols) < 40 {
+						viols = append(viols, violation{Prop: "C14", What: "decoding into a used receiver",
+							Detail: fmt.Sprintf("%s with %d then %d elements, message %d of the sequence: err=%v, decoded object re-encodes to %d bytes, the message has %d", n1, c1, c2, step+1, err, len(got), len(e)),
+							Line:   map[string]interface{}{"shape": n1, "first": c1, "second": c2}})
+					}
+					break
+				}
+			}
+		}
+	}
 	if n == 0 {
 		fmt.Fprintln(os.Stderr, "no framing cases exported")
 		return 2
 	}
+	pairs += reused
 	if len(viols) > 40 {
 		viols = viols[:40]
 	}
@@ -590,7 +660,7 @@ func runHostileChild(args []string) int {
 
 func validFileBytes(rnd *rand.Rand) []byte {
 	lay := cliLayouts[rnd.Intn(len(cliLayouts))]
-	cfg := MCfg{Layout: lay, Method: "sum", Xff: [2]int64{1, 2}}
+	cfg := MCfg{Layout: lay, Method: []string{"average", "sum", "last", "max", "min", "first"}[rnd.Intn(6)], Xff: [2]int64{1, 2}}
 	ring := make([][]RSlot, len(lay))
 	now := uint32(1600000000)
 	for a, ar := range lay {
@@ -667,8 +737,20 @@ func runHostile(args []string) int {
 		return 2
 	}
 	grid := len(cases)
-	// seeded mutations of valid encodings
+	// every header word of a valid file set to every extreme value (systematic, not sampled)
 	rnd := rand.New(rand.NewSource(seed))
+	for g := 0; g < 2*len(cliLayouts); g++ {
+		valid := validFileBytes(rnd)
+		hw := 4 + 3*int(binary.BigEndian.Uint32(valid[12:]))
+		for w := 0; w < hw; w++ {
+			for _, x := range []uint32{0, 1, 0x7fffffff, 0x80000000, 0xffffffff, 0x15555556, 0x0aaaaaab, 7, 8, 9} {
+				data := append([]byte{}, valid...)
+				binary.BigEndian.PutUint32(data[4*w:], x)
+				add(map[string]interface{}{"decoder": "file", "what": fmt.Sprintf("header word %d = %#x", w, x), "grid": g}, "file", data, []string{"err", "ok"})
+			}
+		}
+	}
+	// seeded mutations of valid encodings
 	for i := 0; i < nmut; i++ {
 		valid := validFileBytes(rnd)
 		data := append([]byte{}, valid...)
@@ -712,7 +794,8 @@ func runHostile(args []string) int {
 			}
 			what = "header bit flips"
 		case 2: // extreme value in a header field
-			ext := []uint32{0, 1, 0x7fffffff, 0x80000000, 0xffffffff, 0x15555556, 0x0aaaaaab}
+			// 7, 8, 9: the neighbours of the largest valid aggregation method (reserved / unknown numbers)
+			ext := []uint32{0, 1, 0x7fffffff, 0x80000000, 0xffffffff, 0x15555556, 0x0aaaaaab, 7, 8, 9}
 			hw := 4 + 3*int(binary.BigEndian.Uint32(data[12:]))
 			p := 4 * rnd.Intn(hw)
 			if p+4 <= len(data) {
